@@ -204,6 +204,12 @@ def gen():
         "schedule_while_iterating": "pub struct S0; impl System for S0 { type Views<'a> = Views!(&'a mut A); type Filter = filter::None; type ResourceViews<'a> = Views!(); type EntryViews<'a> = Views!();\n  fn run<'a, R, Q, I, E>(&mut self, qr: Result<'a, R, Q, I, Self::ResourceViews<'a>, Self::EntryViews<'a>, E>) where R: registry::ContainsViews<'a, Self::EntryViews<'a>, E>, I: Iterator<Item = Self::Views<'a>> { } }\npub fn f(world: &mut World<Reg>) { let it = world.query(Query::<Views!(&A)>::new()).iter; let mut s = schedule!(task::System(S0)); world.run_schedule(&mut s); for result!(a) in it { touch(&a.0); } }",
         "par_iter_item_escapes": "pub fn f(world: &mut World<Reg>) { let v: Vec<&mut A> = world.par_query(Query::<Views!(&mut A)>::new()).iter.map(|result!(a)| a).collect(); world.clear(); for a in v { a.0 = 1; } }",
     }
+    life["schedule_with_static_views"] = ("pub struct KS(pub Vec<&'static A>); impl System for KS { type Views<'a> = Views!(&'static A); type Filter = filter::None; type ResourceViews<'a> = Views!(); type EntryViews<'a> = Views!();\n"
+        "  fn run<'a, R, Q, I, E>(&mut self, qr: Result<'a, R, Q, I, Self::ResourceViews<'a>, Self::EntryViews<'a>, E>) where R: registry::ContainsViews<'a, Self::EntryViews<'a>, E>, I: Iterator<Item = Self::Views<'a>> { for result!(a) in qr.iter { self.0.push(a); } } }\n"
+        "pub fn f(world: &mut World<Reg>) { let s = Box::leak(Box::new(schedule!(task::System(KS(Vec::new()))))); world.run_schedule(s); }")
+    life["schedule_leaked_keeps_views"] = ("pub struct KL<'s>(pub Vec<&'s A>); impl<'s> System for KL<'s> { type Views<'a> = Views!(&'a A); type Filter = filter::None; type ResourceViews<'a> = Views!(); type EntryViews<'a> = Views!();\n"
+        "  fn run<'a, R, Q, I, E>(&mut self, qr: Result<'a, R, Q, I, Self::ResourceViews<'a>, Self::EntryViews<'a>, E>) where R: registry::ContainsViews<'a, Self::EntryViews<'a>, E>, I: Iterator<Item = Self::Views<'a>> { for result!(a) in qr.iter { self.0.push(a); } } }\n"
+        "pub fn f(world: &mut World<Reg>) { let s = Box::leak(Box::new(schedule!(task::System(KL(Vec::new()))))); world.run_schedule(s); }")
     for name, body in life.items():
         add("f5f_" + name, "F5f borrow outlives the next use of the world", body, "reject", name.replace("_", " "))
     add("f5f_twin", "F5f twin", "pub fn f(world: &mut World<Reg, Resources!(R1)>, id: entity::Identifier) { { let it = world.query(Query::<Views!(&A)>::new()).iter; for result!(a) in it { touch(&a.0); } } world.insert(entity!(A(1))); world.remove(id); let r = world.get::<R1, _>().0; world.get_mut::<R1, _>().0 = r; let v: Vec<&mut A> = world.par_query(Query::<Views!(&mut A)>::new()).iter.map(|result!(a)| a).collect(); for a in v { a.0 = 1; } world.clear(); }", "accept", "the same uses, each borrow ended first")
@@ -352,7 +358,7 @@ def gen():
     add("c18_batch_columns_twin", "C18 batch invariant twin", "pub fn f(b: %s, world: &mut World<Reg>) { touch(world.extend(b)); }" % BT, "accept", "a batch passed on unchanged")
     add("c18_identifier_forged", "C18 identifier fields", "pub fn f() -> entity::Identifier { entity::Identifier { index: 0, generation: 0 } }", "dontcare", "an identifier built with a struct literal")
 
-OK_CODES = {"E0277", "E0499", "E0502", "E0505", "E0597", "E0599", "E0271", "E0308", "E0282", "E0283", "E0284", "E0133", "E0716", "E0506", "E0503", "E0382", "E0521", "E0373", "E0275", "E0616", "E0451", "E0560", "E0063", "E0639", "E0515"}
+OK_CODES = {"E0277", "E0499", "E0502", "E0505", "E0597", "E0599", "E0271", "E0308", "E0282", "E0283", "E0284", "E0133", "E0716", "E0506", "E0503", "E0382", "E0521", "E0373", "E0275", "E0616", "E0451", "E0560", "E0063", "E0639", "E0515", "E0803"}
 
 
 def artifacts():
